@@ -377,6 +377,20 @@ func C19(r *h.Run) {
 		}
 	}
 
+	// ---- the handler's first Send failed before anything was written, and the handler panics
+	// with that error: recovered once, and the recovery function's error reaches the client ----
+	for _, proto := range protos {
+		cerr, calls, p := failedFirstSendCall(proto, true)
+		in := map[string]any{"proto": proto, "kind": "server", "handler": "its first Send fails in the codec; it panics with that error", "recovery function returns": "data_loss 'after the failed send'"}
+		r.Eval("panic_after_failed_send", proto)
+		r.Sample("panic_after_failed_send", map[string]any{"in": in, "client_error": fmt.Sprint(cerr), "recovery_function_calls": calls})
+		if p != nil {
+			r.Fail(h.Failure{Key: "recover/panic-escaped", Family: "panic_after_failed_send", What: "the panic escaped", Input: in, Actual: fmt.Sprint(p)})
+		} else if calls != 1 || connect.CodeOf(cerr) != connect.CodeDataLoss {
+			r.Fail(h.Failure{Key: "recover/returned-error-not-delivered", Family: "panic_after_failed_send", What: "the client does not receive the error the recovery function returned", Input: in, Expected: "data_loss: after the failed send", Actual: fmt.Sprint("calls=", calls, " client sees ", cerr)})
+		}
+	}
+
 	// ---- calls that OVERLAP on one handler: B enters and waits; A returns normally; then B
 	// panics. Whether a call panicked is that call's business: B is recovered ----
 	for _, proto := range protos {
